@@ -71,14 +71,17 @@ def lastStmt : Prog → Option Stmt
   | .cons s .nil => some s
   | .cons _ r => lastStmt r
 
-/-- [finding C26-compound-errexit] a statement that may end a `{ }`, `if`, `for`, `case`, function
-    body where `-e` applies must not return a non-zero status "because a command failed while `-e`
-    was being ignored": not `! cmd`, not a list ending in `&&`. -/
-def tailOkS : Stmt → Bool
-  | .mk true _ => false
-  | .mk false (.and _ _) => false
-  | .mk false (.or _ (.mk true _)) => false
-  | _ => true
+mutual
+  /-- [finding C26-compound-errexit] a statement that may end a `{ }`, `if`, `for`, `case`, function
+      body where `-e` applies must not return a non-zero status "because a command failed while `-e`
+      was being ignored": not `! cmd`, not a list ending in `&&`. -/
+  def tailOkS : Stmt → Bool
+    | .mk neg c => !neg && tailOkC c
+  def tailOkC : Cmd → Bool
+    | .and _ _ => false
+    | .or _ y => tailOkS y
+    | _ => true
+end
 
 def tailOk (p : Prog) : Bool :=
   match lastStmt p with
@@ -108,7 +111,7 @@ mutual
     | .mk false c => supCmd k c
   /-- a negated subshell, in programs without `set -e` -/
   def supNegSub (k : SCtx) : Cmd → Bool
-    | .subsh p => supProg (subCtx k) false p
+    | .subsh p => !p.isNil && supProg (subCtx k) false p
     | _ => false
   def supCmd (k : SCtx) : Cmd → Bool
     | .tru | .fls | .echo _ | .test _ _ _ | .assign _ _ | .setPF _ | .exit _ | .call _ => true
@@ -123,8 +126,8 @@ mutual
     -- [finding C26-err-trap] ERR traps are outside the proved fragment
     | .trapErr b => b.isNil
     -- [finding C26-subshell-errexit-ignored]
-    | .assignSub _ p => !(k.e && (k.ign || k.unk)) && supProg (subCtx k) false p
-    | .subsh p => !(k.e && (k.ign || k.unk)) && supProg (subCtx k) false p
+    | .assignSub _ p => !p.isNil && !(k.e && (k.ign || k.unk)) && supProg (subCtx k) false p
+    | .subsh p => !p.isNil && !(k.e && (k.ign || k.unk)) && supProg (subCtx k) false p
     | .block p => supProg k true p
     | .and x y => supStmt { k with ign := true, tl := headFalse k.tl } x && supStmt k y
     | .or x y => supStmt { k with ign := true, tl := headFalse k.tl } x && supStmt k y
@@ -132,9 +135,9 @@ mutual
     | .pipe x y =>
       !(k.e && (k.ign || k.unk)) && supPipeL k x && supPipeR y
     | .ifc c t e =>
-      supProg { k with ign := true, tl := headFalse k.tl } false c && supProg k true t && supElse k e
+      !c.isNil && supProg { k with ign := true, tl := headFalse k.tl } false c && supProg k true t && supElse k e
     | .whl _ c b =>
-      supProg { k with ign := true, tl := headFalse k.tl } false c
+      !c.isNil && supProg { k with ign := true, tl := headFalse k.tl } false c
         && supBody { k with tl := true :: k.tl } b && lastZero b
     | .forc _ _ b =>
       supBody { k with tl := true :: k.tl, inFor := true } b && (!k.e || k.ign || tailOk b)
@@ -164,7 +167,7 @@ mutual
     | .none => true
     | .els p => supProg k true p
     | .elif c t e =>
-      supProg { k with ign := true, tl := headFalse k.tl } false c && supProg k true t && supElse k e
+      !c.isNil && supProg { k with ign := true, tl := headFalse k.tl } false c && supProg k true t && supElse k e
   /-- [finding C26-case-empty-clause] `chain`: an earlier item ends in `;&` or `;;&`; an empty
       clause may then run after a failing one. -/
   def supItems (k : SCtx) (chain : Bool) : Items → Bool
